@@ -897,6 +897,15 @@ class GSet(_SetBase):
         return self
 
 
+def _key_inst(k):
+    """dictionary keys: an object that hashes by identity (no __hash__ / __eq__ of its own, e.g. a DFA or TM used as the key of
+    a per-object cache) is its own key, whatever its fields hold; everything else is instantiated to concrete values"""
+    if not isinstance(k, (U, SB, tuple, GSet, FSet, GList, GStr)) and getattr(type(k), '__lifted_class__', False) \
+            and type(k).__hash__ is object.__hash__:
+        return [(TRUE, k)]
+    return E.inst(k)
+
+
 class GDict:
     def __init__(self, default_factory=None):
         self.m = {}       # key -> [presence, value]
@@ -912,13 +921,13 @@ class GDict:
 
     def contains(self, k):
         d = E.dag
-        return d.any_(d.and_(h, self.m[kv][0]) for h, kv in E.inst(k) if kv in self.m)
+        return d.any_(d.and_(h, self.m[kv][0]) for h, kv in _key_inst(k) if kv in self.m)
 
     def getitem(self, k):
         d = E.dag
         g = E.g()
         res = []
-        for h, kv in E.inst(k):
+        for h, kv in _key_inst(k):
             ent = self.m.get(kv)
             p = ent[0] if ent else FALSE
             if p != FALSE:
@@ -946,7 +955,7 @@ class GDict:
     def get(self, k, default=None):
         d = E.dag
         res = []
-        for h, kv in E.inst(k):
+        for h, kv in _key_inst(k):
             ent = self.m.get(kv)
             p = ent[0] if ent else FALSE
             if p != FALSE:
@@ -957,7 +966,7 @@ class GDict:
     def setitem(self, k, v):
         d = E.dag
         g = E.g()
-        for h, kv in E.inst(k):
+        for h, kv in _key_inst(k):
             w = d.and_(g, h)
             if w == FALSE:
                 continue
@@ -971,7 +980,7 @@ class GDict:
     def delitem(self, k):
         d = E.dag
         g = E.g()
-        for h, kv in E.inst(k):
+        for h, kv in _key_inst(k):
             w = d.and_(g, h)
             ent = self.m.get(kv)
             E.fail(d.and_(w, (ent[0] if ent else FALSE) ^ 1), 'KeyError', repr(kv))
@@ -1903,7 +1912,9 @@ def _promote_global(obj):
     the same content. Lifted code reads module globals by name on every access, so later reads see the engine container."""
     if id(obj) in _PROMOTED:
         return _PROMOTED[id(obj)][1]
-    if type(obj) not in (dict, set):
+    import weakref as _wr
+    import collections as _co
+    if type(obj) not in (dict, set, _wr.WeakKeyDictionary, _wr.WeakValueDictionary, _co.OrderedDict, _co.defaultdict):
         return None
     hits = []
     for name, mod in list(sys.modules.items()):
@@ -1914,7 +1925,12 @@ def _promote_global(obj):
                 hits.append((mod, k))
     if not hits:
         return None
-    new = wrap(obj)
+    if isinstance(obj, set):
+        new = wrap(obj)
+    else:
+        new = wrap(dict(obj.items()))
+        if isinstance(obj, _co.defaultdict):
+            new.default_factory = obj.default_factory
     for mod, k in hits:
         setattr(mod, k, new)
     _PROMOTED[id(obj)] = (obj, new)
@@ -2377,6 +2393,18 @@ def _sum(it, start=0):
     for g, v in ITER(it):
         acc = E.merge(g, BINOP('Add', acc, v), acc)
     return acc
+
+
+@override(_copy.copy)
+def _shallow_copy(x):
+    # shallow copy: a new container holding the SAME element objects (aliasing of the elements is the point)
+    if isinstance(x, (GSet, GDict, GList)):
+        return x.copy()
+    if isinstance(x, FSet):
+        return x
+    if isinstance(x, U):
+        return PER_ALT(x, _shallow_copy)
+    return _copy.copy(x)
 
 
 @override(_copy.deepcopy)
